@@ -158,6 +158,32 @@ pub fn run(case: &Value) -> Value {
                 Err(e) => json!({"ok": false, "doc_err": format!("{:?}", e)}),
             }
         }
+        "attr_order" => {
+            // set_attribute on the first child of the root, then: all nodes and attributes in the order XPath sorts them,
+            // on the edited document and on a fresh parse of its serialization
+            use xml_dom::{Document, ElementMut, Node};
+            match xml_dom::XmlDocument::from_raw(input) {
+                Ok((_, doc)) => {
+                    let top = doc.document_element().unwrap();
+                    let p = match top.child_nodes().iter().next() { Some(xml_dom::XmlNode::Element(e)) => e, _ => return json!({"ok": false, "err": "no element child"}) };
+                    let name = case["name"].as_str().unwrap_or("n");
+                    let r = p.set_attribute(name, "v");
+                    let label = |n: &xml_dom::XmlNode| -> String { format!("{}|{}", n.node_name(), n.node_value().ok().flatten().unwrap_or_default()) };
+                    let walk = |d: xml_dom::XmlDocument| -> Vec<String> {
+                        let mut c = xml_xpath::eval::model::Context::default();
+                        match xml_xpath::query(d, "//node() | //@*", &mut c) {
+                            Ok(xml_xpath::eval::model::Value::Node(ns)) => ns.iter().map(|n| label(n)).collect(),
+                            other => vec![format!("{:?}", other.map(|v| format!("{}", v)))],
+                        }
+                    };
+                    let printed = format!("{}", doc);
+                    let edited = walk(doc.clone());
+                    let fresh = match xml_dom::XmlDocument::from_raw(printed.as_str()) { Ok((_, d2)) => walk(d2), Err(e) => vec![format!("{:?}", e)] };
+                    json!({"ok": r.is_ok(), "err": r.err().map(|e| format!("{:?}", e)), "edited": edited, "fresh": fresh, "printed": printed})
+                }
+                Err(e) => json!({"ok": false, "doc_err": format!("{:?}", e)}),
+            }
+        }
         "mutate" => mutate(case),
         "chardata" => chardata(case),
         "create" => create(case),
